@@ -50,6 +50,7 @@ theorem C19_redirect_follows_at_head (s : SendSettings) (req : Req) (cap n : Nat
     (hfollow : s.followRedirects = true) (hst : isRedirectStatus h.code = true)
     (hlim : n + 1 ≤ s.maxRedirections)
     (hloc : ((h.seen.remove nameTE).get (hName "location")).isSome = true)
+    (hdial : undialable next = none)
     (hflat : flatT t = bytesI h.render ++ rest) :
     exchange s req cap n url { script := t, resolved := some next } = .follow next := by
   obtain ⟨r1, _, _, hp⟩ := parseResponse_of_head h hh rest t cap s.maxHeaders hwf hcap hmh hms hflat
@@ -59,7 +60,7 @@ theorem C19_redirect_follows_at_head (s : SendSettings) (req : Req) (cap n : Nat
   simp only [Bool.not_true, Bool.false_or, this, if_false]
   cases hg : (h.seen.remove nameTE).get (hName "location") with
   | none => rw [hg] at hloc; cases hloc
-  | some v => simp
+  | some v => simp [hdial]
 
 namespace C19rEx
 /-- `HTTP/1.1 302 Found`, `Location: /next`, `Content-Length: 10` -/
@@ -83,6 +84,6 @@ example : exchange C19rEx.settings C19rEx.req 8 0 C19rEx.url0
   C19_redirect_follows_at_head C19rEx.settings C19rEx.req 8 0 C19rEx.url0 C19rEx.url1 C19rEx.head302
     (bytesI (str "abc") ++ [.pause]) _ (.length 10)
     (by decide +kernel) (by decide) (by decide +kernel) (by decide +kernel) (by decide +kernel)
-    (by decide +kernel) rfl (by decide) (by decide) (by decide +kernel) (by decide +kernel)
+    (by decide +kernel) rfl (by decide) (by decide) (by decide +kernel) (by decide +kernel) (by decide +kernel)
 
 end Atto
